@@ -136,6 +136,30 @@ def run(ctx):
                         s3.violate({"src": "\n".join(inline[:2] + runl + [last] + inline[2 + len(runl):]), "twin": "\n".join(twin) + ending, "part_zq.s": "\n".join(runl + [last]) + ending},
                                    "same output", (b["status"], b.get("exc"), (b.get("error") or "")[:100]), "moving statements into an included file used inside a repeated body (or dropping the final newline) changes the output")
                         break
+        # the moved run (re)defines things the rest of the program uses afterwards: macros (defined for the first time or
+        # redefined), constants, symbols, tables
+        for i in range(8 if tier == "quick" else 60):
+            v1, v2, v3 = rng.randrange(256), rng.randrange(256), rng.randrange(256)
+            pre = ["*=0x008000", ".macro put_zq(v) {", f".db v, {v1}", "}", "c_zq := 1", "put_zq(1)"]
+            moved = rng.choice([
+                [".macro put_zq(v) {", f".db v, {v2}, {v3}", "}", "put_zq(2)"],
+                [".macro other_zq() {", f".db {v2}", "}", ".macro put_zq(v) {", "other_zq()", ".db v", "}"],
+                ["c_zq := c_zq + 1", ".macro put_zq(v) {", f".db {v3}, v", "}"],
+                [".macro fresh_zq(v) {", ".dw v", "}", "fresh_zq(0x1234)"],
+            ])
+            post = ["put_zq(3)", ".db c_zq", "{", "put_zq(4)", "}", "end:", ".dw end"] + (["fresh_zq(7)"] if "fresh_zq" in " ".join(moved) else [])
+            inline = pre + moved + post
+            twin = pre + [".include 'part_zq.s'"] + post
+            impl.write_files(run_.tmp, {"part_zq.s": "\n".join(moved) + "\n"}, None)
+            a = impl.assemble("\n".join(inline) + "\n", "low_rom", cwd=run_.tmp)
+            b = impl.assemble("\n".join(twin) + "\n", "low_rom", cwd=run_.tmp)
+            s3.cases += 1
+            s3.count("definitions-in-moved-run")
+            if outputs(a) is None:
+                s3.violate({"src": "\n".join(inline)}, "assembled", a.get("exc") or a.get("error"), "a plain program is rejected")
+            elif outputs(a) != outputs(b):
+                s3.violate({"src": "\n".join(inline), "twin": "\n".join(twin), "part_zq.s": "\n".join(moved)}, "same output", (b["status"], b.get("exc")),
+                           "moving a run of statements that (re)defines a macro / constant used afterwards into an included file changes the output")
         # a run moved into a file whose first version was broken (or missing) and has been repaired since: the program with
         # the .include still equals the inline program, in the same process
         for i in range(8 if tier == "quick" else 60):
